@@ -359,7 +359,7 @@ func runCase(c dlCase) (fail *vt.Fail, soft string) {
 			}
 		}
 	}
-	if total > D+2*time.Second+g && soft == "" {
+	if total > max(D, 0)+2*time.Second+g && soft == "" {
 		soft = fmt.Sprintf("RunT and its subtests took %v for a deadline %v away", total.Round(time.Millisecond), D)
 	}
 	return nil, soft
@@ -367,8 +367,22 @@ func runCase(c dlCase) (fail *vt.Fail, soft string) {
 
 func checkDeadline(c dlCase) *vt.Fail {
 	last = obs{}
-	if c.DeadlineMS < 20 || c.DeadlineMS > 10000 || len(c.Scripts) == 0 || len(c.Scripts) > 6 {
+	if c.DeadlineMS < -5000 || (c.DeadlineMS > -50 && c.DeadlineMS < 20) || c.DeadlineMS > 10000 || len(c.Scripts) == 0 || len(c.Scripts) > 6 {
 		return nil
+	}
+	if c.DeadlineMS < 0 {
+		// a deadline that is already past when RunT starts: every command is interrupted as soon as it runs and killed one
+		// (minimal) grace period later. Only the kinds whose timing does not refer to the interrupt time.
+		for _, s := range c.Scripts {
+			switch s.Kind {
+			case "block", "ignore-quit", "ignore-quit-inherited", "quit-exits-0":
+			default:
+				return nil
+			}
+		}
+		if c.Sequential {
+			return nil
+		}
 	}
 	// soft (upper) bounds are judged only on a responsive machine and must reproduce three times in a row
 	var soft string
@@ -471,6 +485,9 @@ var scenarios = []dlCase{
 	// kept work directories: a script that ends early must not disturb the ones still running
 	{DeadlineMS: 900, KeepWork: true, Scripts: []scriptSpec{{Kind: "early"}, {Kind: "block", Before: 1}, {Kind: "ignore-quit-inherited"}}},
 	{DeadlineMS: 1200, KeepWork: true, Sequential: true, Scripts: []scriptSpec{{Kind: "consume", EdgeMS: 15}, {Kind: "block"}}},
+	// the deadline is already past when RunT starts
+	{DeadlineMS: -500, Scripts: []scriptSpec{{Kind: "ignore-quit-inherited"}, {Kind: "block", Before: 1}}},
+	{DeadlineMS: -3000, Scripts: []scriptSpec{{Kind: "ignore-quit-inherited", Neg: true, Before: 1}}},
 	// a command that answers the interrupt with a clean exit
 	{DeadlineMS: 900, Scripts: []scriptSpec{{Kind: "quit-exits-0", Before: 1}, {Kind: "quit-exits-0", Neg: true}}},
 }
